@@ -70,6 +70,14 @@ type Chain struct {
 	via        atomic.Value // string: how the rescan obtained the header it is about to notify
 	retries    atomic.Int64 // scripted failures served
 	subscribes atomic.Int64
+
+	// Hold: parks the rescan goroutine inside the connected callback of one
+	// chosen block (same parked/release channels as the gate).
+	holdConn atomic.Pointer[chainhash.Hash]
+
+	// Disconnected notifications of quiet rollbacks: the store has changed,
+	// the notifications have not been consumed by the subscriber yet.
+	pendingDisc []blockntfns.BlockNtfn
 }
 
 func newChain(g *chaingen.Gen, initial *chaingen.Node, lg *Log) *Chain {
@@ -153,6 +161,9 @@ func (c *Chain) disarm() bool {
 	for {
 		at := c.gateAt.Load()
 		if at == 0 {
+			if h := c.holdConn.Load(); h != nil && c.holdConn.CompareAndSwap(h, nil) {
+				return true
+			}
 			return false
 		}
 		if c.gateAt.CompareAndSwap(at, 0) {
@@ -219,6 +230,63 @@ func (c *Chain) rollback(n int) {
 		c.log.add(Ev{Kind: EvChain, Note: "visible -1", Height: top.Height, Hash: top.Hash})
 		c.send(blockntfns.NewBlockDisconnected(top.Hdr, uint32(top.Height), prev.Hdr))
 	}
+}
+
+// rollbackQuiet removes the n highest visible blocks like rollback, but keeps
+// the Disconnected notifications back: from the subscriber's point of view
+// they are still queued in its subscription (the stores change before the
+// subscriber consumes the notification).
+func (c *Chain) rollbackQuiet(n int) {
+	for i := 0; i < n; i++ {
+		c.mu.Lock()
+		if len(c.path) < 2 {
+			c.mu.Unlock()
+			return
+		}
+		top := c.path[len(c.path)-1]
+		c.path = c.path[:len(c.path)-1]
+		prev := c.path[len(c.path)-1]
+		c.pendingDisc = append(c.pendingDisc, blockntfns.NewBlockDisconnected(top.Hdr, uint32(top.Height), prev.Hdr))
+		c.mu.Unlock()
+		c.log.add(Ev{Kind: EvChain, Note: "visible -1 (notification pending)", Height: top.Height, Hash: top.Hash})
+	}
+}
+
+// flushDisconnected dispatches (send=true) or discards the Disconnected
+// notifications kept back by rollbackQuiet, in their original order.
+func (c *Chain) flushDisconnected(send bool) int {
+	c.mu.Lock()
+	pend := c.pendingDisc
+	c.pendingDisc = nil
+	c.mu.Unlock()
+	if send {
+		for _, n := range pend {
+			c.send(n)
+		}
+	}
+	return len(pend)
+}
+
+// hold arms a park inside the connected callback of node n.
+func (c *Chain) hold(n *chaingen.Node) {
+	h := n.Hash
+	c.holdConn.Store(&h)
+}
+
+// held is called by the connected callback; it parks when the block is the
+// one a hold was armed for.
+func (c *Chain) held(hash chainhash.Hash) {
+	if h := c.holdConn.Load(); h != nil && *h == hash && c.holdConn.CompareAndSwap(h, nil) {
+		c.park("cb-connected/hold")
+	}
+}
+
+// onVisible reports whether the block with the given hash is on the visible
+// chain.
+func (c *Chain) onVisible(hash chainhash.Hash) bool {
+	c.mu.Lock()
+	defer c.mu.Unlock()
+	return c.visibleLocked(c.tree[hash])
 }
 
 // makeVisible appends nodes to the visible chain without notifying (the
